@@ -1,6 +1,7 @@
 \* exhaustive (quick): histories of <= 2 cycles x 0..1 burn steps from (0,0), two stacks, coupling off / on, all single failures
 CONSTANTS MaxCyc = 2  MaxBurn = 1  Tights = {FALSE, TRUE}  WithStarts = FALSE  MaxLevel = 400
 CONSTANTS RestartFrom = {"completed", "aborted"}  Phase2Fails = TRUE
+CONSTANT FailKinds = {"RuntimeError", "CustomError", "SystemExit", "KeyboardInterrupt", "BaseException"}
 CONSTANT Configs <- NoConfigs
 INIT RInit
 NEXT RNextR
@@ -15,6 +16,8 @@ INVARIANT MarkAndPlace
 INVARIANT RestartHoldsWholeHistory
 INVARIANT MergedUnchanged
 INVARIANT RestartIsInit
+INVARIANT ProbesServeLive
+INVARIANT RestartedStatesDiffer
 INVARIANT RunningFileHoldsWrittenNodes
 INVARIANT ScheduleIsNestedLoop
 INVARIANT DispatchExactlyActiveInOrder
